@@ -53,8 +53,13 @@ def make_copy(mut):
 
 
 def run_one(mut, tier, seeds):
-    tmp = make_copy(mut)
     out = {"id": mut["id"], "property": mut["property"], "note": mut.get("note", "")}
+    try:
+        tmp = make_copy(mut)
+    except SystemExit as exc:               # stale anchor: report it, do not abort the batch
+        out.update(tests_pass=False, detected=False, anchor_error=str(exc))
+        print(f"ANCHOR-ERROR {mut['id']}: {exc}", flush=True)
+        return out
     try:
         code, text = sh([PY, "-m", "pytest", "-q", "-p", "no:cacheprovider", "-x", "test"], cwd=tmp)
         out["tests_pass"] = code == 0
